@@ -337,7 +337,11 @@ class Writer:
         self.rsym: Optional[str] = None     # symbol supplying the reason, if any
         self._collect()
         # call-chain variants: (label, {symbol: 'nonnull'|'null'|'any'}, fresh_attempt, reason values or None)
-        self.variants: List[Tuple[str, Dict[str, str], bool, Optional[Set[Optional[str]]]]] = []
+        # fresh_attempt: True = the attempt id of this chain provably names an attempt that has not been billed (see id_provenance),
+        #                False = not restricted, None = the provenance of the id is not decided (rows are flagged by transitions_ex)
+        self.variants: List[Tuple[str, Dict[str, str], Optional[bool], Optional[Set[Optional[str]]]]] = []
+        self.provs: List[Optional[List['Prov']]] = []      # parallel to variants: where the attempt id of the chain comes from (None: not traced)
+        self.key_param: Optional[str] = None                # routine parameter compared with attempts.attempt_id in the WHERE of the UPDATE
 
     @property
     def sets(self) -> Dict[str, str]:
@@ -390,6 +394,10 @@ class Writer:
             if c == 'reason' and not (v.kind in ('col', 'param') or (v.kind == 'lit' and (v.value is None or isinstance(v.value, str)))):
                 raise AnalysisError(f'{self.wid}: reason assigned a computed expression `{text(v)}`')
             assigned.add(c)
+
+    def add_variant(self, label: str, classes: Dict[str, str], fresh: Optional[bool], rvals: Optional[Set[Optional[str]]], provs: Optional[List['Prov']] = None) -> None:
+        self.variants.append((label, classes, fresh, rvals))
+        self.provs.append(provs)
 
     def written_row(self, old: Dict[str, Any], pv: Dict[str, Any], reason: Any) -> Dict[str, Any]:
         """The NEW row the statement hands to the BEFORE UPDATE trigger (single-table UPDATE: assignments apply left to right)."""
@@ -460,7 +468,14 @@ def find_writers(ctx: Ctx, prog: sf.SqlProgram, rule: Optional[str] = 'R3') -> L
                     if c.kind == 'col' and c.parts[-1].lower() in COLS and (len(c.parts) == 1 and tabs[0].name.lower() == 'attempts' or len(c.parts) > 1 and alias.get(c.parts[-2].lower()) == 'attempts'):
                         assigns.append((c.parts[-1].lower(), sr.inline_expr(v, env)))
                 if assigns:
-                    out.append(Writer(f'sql:{name}', r.file, r.line_of(st), assigns, local_vars, single_table=len(sf.from_tables(st.frm)) == 1))
+                    w = Writer(f'sql:{name}', r.file, r.line_of(st), assigns, local_vars, single_table=len(sf.from_tables(st.frm)) == 1)
+                    for c in sf.conjuncts(st.where):
+                        if c.kind == 'bin' and c.op == '=':
+                            for x, y in ((c.left, c.right), (c.right, c.left)):
+                                if x.kind == 'col' and x.parts[-1].lower() == 'attempt_id' and sr.is_var(y) and y.parts[0].lower() in local_vars and \
+                                        (len(x.parts) == 1 or alias.get(x.parts[-2].lower()) == 'attempts'):
+                                    w.key_param = y.parts[0].lower()
+                    out.append(w)
             elif st.kind == 'insert' and st.table.lower() == 'attempts':
                 cols = [c.lower() for c in (st.cols or [])]
                 if rule:
@@ -724,14 +739,14 @@ def refine_from_callers(ctx: Ctx, prog: sf.SqlProgram, ws: List[Writer]) -> None
                     x = first if idx == 0 and first is not None else None
                 cl = classify_time(ctx, m, e.fn, x) if x is not None else [('any', 'unbound')]
                 classes[s_] = _one_class(cl)
-            w.variants.append((e.qual, classes, False, None))
+            w.add_variant(e.qual, classes, False, None)
             continue
         name = w.wid[4:].split('::')[0]
         if not w.assigns:
-            w.variants.append(('no-op', {}, False, None))
+            w.add_variant('no-op', {}, False, None)
             continue
         if name not in calls:
-            w.variants.append(('unresolved callers', {s_: 'any' for s_ in tsyms}, False, None))
+            w.add_variant('unresolved callers', {s_: 'any' for s_ in tsyms}, False, None)
             continue
         pc = calls[name]
         m, e, bind = pc.m, pc.e, pc.bind
@@ -764,14 +779,19 @@ def refine_from_callers(ctx: Ctx, prog: sf.SqlProgram, ws: List[Writer]) -> None
                         srcs = trace_strings(m, wrapper, bind[rs], ())
                     rvals = {v for v, _, _ in srcs} if all(v is not None or note == 'None' for v, _, note in srcs) else None
                 # an attempt id that is literally None never matches a row: the UPDATE is a no-op
-                aid = bind.get('in_attempt_id')
-                if isinstance(aid, ast.Name) and aid.id in wparams:
+                aid = bind.get(w.key_param) if w.key_param else None
+                provs: Optional[List[Prov]] = None
+                if isinstance(aid, ast.Name) and aid.id in wparams and not [d for d in pf.assignments(wrapper).get(aid.id, []) if not isinstance(d, ast.arg)]:
                     how, av = bound_arg(call, wrapper, aid.id)
                     if isinstance(av, ast.Constant) and av.value is None:
                         ctx.info(f'{m2.rel}:{call.lineno} calls {wrapper.name} with attempt_id None: `attempt_id = NULL` matches no row, no update happens')
                         continue
-                fresh = f2 is not None and f2.name == 'mark_job_errored'
-                w.variants.append((f'{m2.rel}::{m2.qualname(f2) if f2 else "<module>"}', classes, fresh, rvals))
+                    # which attempts row can this chain's report land on?  (def-use provenance of the id, through callers)
+                    if how == 'arg' and av is not None:
+                        provs = id_provenance(prog, m2, f2, av, call)
+                    elif how == 'default' and av is not None:
+                        provs = id_provenance(prog, m, None, av, call)
+                w.add_variant(f'{m2.rel}::{m2.qualname(f2) if f2 else "<module>"}', classes, fresh_state(provs), rvals, provs)
         else:
             classes = {}
             for s_ in tsyms:
@@ -781,11 +801,412 @@ def refine_from_callers(ctx: Ctx, prog: sf.SqlProgram, ws: List[Writer]) -> None
             if rs in bind:
                 srcs = trace_strings(m, wrapper, bind[rs], ())
                 rvals = {v for v, _, _ in srcs} if all(v is not None or note == 'None' for v, _, note in srcs) else None
-            w.variants.append((f'{m.rel}::{m.qualname(wrapper)}', classes, False, rvals))
+            w.add_variant(f'{m.rel}::{m.qualname(wrapper)}', classes, False, rvals)
         if any(v[2] for v in w.variants):
-            ctx.assume('mark_job_errored reports an attempt that has not ended and has not been billed yet (OLD: end_time NULL, reason NULL, rollup <= start or one of them NULL): '
-                       'the id was just generated by the scheduling loop (secret_alnum_string) or, for a job-private instance, the attempt was created by mark_job_creating '
-                       '(start = rollup) and its job was never sent to a worker, so no billing heartbeat has moved rollup_time.  Not verified statically.')
+            ctx.assume('an attempt id minted by the id generator (' + ', '.join(sorted(MINT_FUNCS)) + ') in the same scheduling pass, or jobs.attempt_id of a job selected WHERE jobs.state = \'Creating\', names '
+                       'an attempt that has not ended and has not been billed (OLD: end_time NULL, reason NULL, rollup <= start or one of them NULL): either no row yet, or the row mark_job_creating made '
+                       '(start = rollup) whose job was never sent to a worker, so no billing heartbeat has moved rollup_time.  WHERE the id comes from is decided by def-use provenance (C03 R5); '
+                       'that such a row is unbilled is the assumption.')
+        for note in sorted(_prov_notes):
+            ctx.assume('id provenance: ' + note)
+
+
+# ----------------------------------------------------------------------------------------------------
+# provenance of an attempt id: which `attempts` row can a report land on?
+# ----------------------------------------------------------------------------------------------------
+# A report that carries no times (mark_job_errored: start NULL, end NULL -> rollup NULL) is only harmless for an attempt that has not
+# been billed.  Whether the id a call chain hands to the CALL names such an attempt is a def-use question:
+#   'minted'    produced by the id generator in the same scheduling pass (names no row, or the row mark_job_creating made in that pass)
+#   'creating'  jobs.attempt_id of a job selected WHERE jobs.state = 'Creating' (the attempt mark_job_creating made: start = rollup)
+#   'existing'  read from `attempts` (any attempt of the job), jobs.attempt_id of a job in another state, or reported by a worker
+#   'none'      the literal None (matches no row)
+#   'unknown'   anything else
+MINT_FUNCS = {'secret_alnum_string'}
+JSON_SOURCES = {'json_request', 'json'}
+ROW_METHODS_ONE = {'execute_and_fetchone', 'select_and_fetchone'}
+ROW_METHODS_MANY = {'execute_and_fetchall', 'select_and_fetchall'}
+FRESH_KINDS = {'minted', 'creating', 'none'}
+HOF_NOTE = ('a function object passed as a positional argument of a call is invoked with the positional / keyword arguments that follow it '
+            '(waitable_pool.call(f, *args) / retry_transient_errors(f, *args) idiom)')
+_prov_notes: Set[str] = set()
+
+
+class Prov:
+    def __init__(self, kind: str, why: str, rel: str, line: int):
+        self.kind = kind
+        self.why = why
+        self.rel = rel
+        self.line = line
+
+    def __repr__(self) -> str:
+        return f'{self.kind}: {self.why} ({self.rel}:{self.line})'
+
+
+def _enclosing_fn(m: pf.Module, fn: pf.FuncDef) -> Optional[pf.FuncDef]:
+    """The function a nested def lives in (None for module-level functions and methods)."""
+    p = m.parents().get(fn)
+    while p is not None:
+        if isinstance(p, (ast.FunctionDef, ast.AsyncFunctionDef)):
+            return p
+        if isinstance(p, ast.ClassDef):
+            return None
+        p = m.parents().get(p)
+    return None
+
+
+def all_call_sites(m: pf.Module, fn: pf.FuncDef) -> Tuple[List[Tuple[pf.Module, Optional[pf.FuncDef], ast.Call, ast.Call]], List[Tuple[pf.Module, ast.AST]]]:
+    """(sites, other references).  A site is (module, enclosing function, call as seen by the callee, the real call node): direct calls by
+    name and calls that pass the function object followed by its arguments.  For a nested def only its enclosing function is searched."""
+    outer = _enclosing_fn(m, fn)
+    sites: List[Tuple[pf.Module, Optional[pf.FuncDef], ast.Call, ast.Call]] = []
+    other: List[Tuple[pf.Module, ast.AST]] = []
+    if outer is not None:
+        scopes: List[Tuple[pf.Module, ast.AST]] = [(m, outer)]
+    else:
+        scopes = []
+        for rel in pf.walk_py(PY_DIRS):
+            m2 = pf.load(rel)
+            if fn.name in m2.src:
+                scopes.append((m2, m2.tree))
+
+    def is_ref(x: ast.AST) -> bool:
+        return (isinstance(x, ast.Name) and x.id == fn.name) or (outer is None and isinstance(x, ast.Attribute) and x.attr == fn.name)
+    for m2, root in scopes:
+        used: Set[int] = set()
+        for n in ast.walk(root):
+            if not isinstance(n, ast.Call):
+                continue
+            if is_ref(n.func):
+                used.add(id(n.func))
+                if n is not None and m2.enclosing_func(n) is not fn and bound_arg(n, fn, '')[0] != 'incompatible':
+                    sites.append((m2, m2.enclosing_func(n), n, n))
+                continue
+            for i, a in enumerate(n.args):
+                if is_ref(a):
+                    used.add(id(a))
+                    syn = ast.Call(func=ast.Name(id=fn.name, ctx=ast.Load()), args=list(n.args[i + 1:]), keywords=list(n.keywords))
+                    ast.copy_location(syn, n)
+                    ast.copy_location(syn.func, n)
+                    if bound_arg(syn, fn, '')[0] != 'incompatible':
+                        _prov_notes.add(HOF_NOTE)
+                        sites.append((m2, m2.enclosing_func(n), syn, n))
+                    break
+        for n in ast.walk(root):
+            if isinstance(n, (ast.Name, ast.Attribute)) and isinstance(getattr(n, 'ctx', None), ast.Load) and is_ref(n) and id(n) not in used:
+                if outer is None and isinstance(n, ast.Attribute):
+                    continue        # x.name that is not called: some other object's attribute
+                other.append((m2, n))
+    return sites, other
+
+
+def _straight_dominates(m: pf.Module, fn: pf.FuncDef, stmt: ast.AST, at: ast.AST) -> bool:
+    """stmt is an earlier sibling of `at` or of one of its ancestors inside fn (so it ran before `at` on every path to it)."""
+    par = m.parents()
+    cur: Optional[ast.AST] = at
+    while cur is not None and cur is not fn:
+        p = par.get(cur)
+        if p is None:
+            return False
+        for field in ('body', 'orelse', 'finalbody'):
+            lst = getattr(p, field, None)
+            if isinstance(lst, list) and any(x is cur for x in lst):
+                idx = [i for i, x in enumerate(lst) if x is cur][0]
+                if any(x is stmt for x in lst[:idx]):
+                    return True
+        cur = p
+    return False
+
+
+def _const_key(e: ast.AST) -> Optional[str]:
+    if isinstance(e, ast.Subscript):
+        return pf.const_str(e.slice)
+    if isinstance(e, ast.Call) and isinstance(e.func, ast.Attribute) and e.func.attr == 'get' and e.args:
+        return pf.const_str(e.args[0])
+    return None
+
+
+def _key_base(e: ast.AST) -> ast.AST:
+    return e.value if isinstance(e, ast.Subscript) else e.func.value    # type: ignore[union-attr]
+
+
+class _ProvTracer:
+    def __init__(self, prog: sf.SqlProgram, field: str = 'attempt_id'):
+        self.prog = prog
+        self.id_col = field
+        self.active: Set[Tuple[int, str, str]] = set()
+
+    # -- values ---------------------------------------------------------------------------------------
+    def value(self, m: pf.Module, fn: Optional[pf.FuncDef], e: ast.AST, at: ast.AST, depth: int = 10) -> List[Prov]:
+        line = getattr(e, 'lineno', getattr(at, 'lineno', 0))
+        if depth <= 0:
+            return [Prov('unknown', 'definition chain too deep', m.rel, line)]
+        if isinstance(e, ast.Await):
+            return self.value(m, fn, e.value, at, depth)
+        if isinstance(e, ast.Constant) and e.value is None:
+            return [Prov('none', 'None', m.rel, line)]
+        if isinstance(e, ast.Call) and pf.call_name(e) in MINT_FUNCS:
+            return [Prov('minted', f'`{pf.nsrc(e)}` in {m.qualname(fn) if fn is not None else "<module>"}', m.rel, line)]
+        if isinstance(e, ast.IfExp):
+            return self.value(m, fn, e.body, at, depth - 1) + self.value(m, fn, e.orelse, at, depth - 1)
+        if isinstance(e, ast.Name):
+            if fn is None:
+                return [Prov('unknown', f'module-level name `{e.id}`', m.rel, line)]
+            key = (id(fn), 'v', e.id)
+            if key in self.active:
+                return []
+            self.active.add(key)
+            try:
+                return self._name(m, fn, e.id, at, depth, line)
+            finally:
+                self.active.discard(key)
+        k = _const_key(e)
+        if k is not None:
+            base = _key_base(e)
+            if isinstance(base, ast.Name) and fn is not None:
+                return self.field(m, fn, base.id, k, at, depth - 1)
+            if self._from_json(m, fn, base, depth):
+                return [Prov('existing', f'`{pf.nsrc(e)}` is taken from a request body (an attempt some worker reports on)', m.rel, line)]
+        return [Prov('unknown', f'`{pf.nsrc(e)[:60]}`', m.rel, line)]
+
+    def _name(self, m: pf.Module, fn: pf.FuncDef, name: str, at: ast.AST, depth: int, line: int) -> List[Prov]:
+        defs = pf.assignments(fn).get(name, [])
+        if not defs:
+            outer = _enclosing_fn(m, fn)
+            if outer is not None:
+                return self.value(m, outer, ast.copy_location(ast.Name(id=name, ctx=ast.Load()), fn), fn, depth - 1)
+            return [Prov('unknown', f'`{name}` is not a local of {fn.name}', m.rel, line)]
+        out: List[Prov] = []
+        for d in defs:
+            if isinstance(d, ast.arg):
+                out += self._param(m, fn, name, depth, lambda m2, f2, a, real: self.value(m2, f2, a, real, depth - 1))
+            elif isinstance(d, ast.expr):
+                out += self.value(m, fn, d, d, depth - 1)
+            else:
+                out.append(Prov('unknown', f'`{name}` is bound by a {type(d).__name__} statement', m.rel, getattr(d, 'lineno', line)))
+        return out
+
+    def _param(self, m: pf.Module, fn: pf.FuncDef, name: str, depth: int, cont: Callable[[pf.Module, Optional[pf.FuncDef], ast.expr, ast.AST], List[Prov]]) -> List[Prov]:
+        sites, other = all_call_sites(m, fn)
+        out: List[Prov] = []
+        for m2, n in other:
+            out.append(Prov('unknown', f'`{fn.name}` is referenced without being called (`{pf.nsrc(m2.parents().get(n, n))[:50]}`)', m2.rel, getattr(n, 'lineno', 0)))
+        if not sites and not other:
+            out.append(Prov('unknown', f'no call sites of {fn.name}', m.rel, fn.lineno))
+        for m2, f2, call, real in sites:
+            how, a = bound_arg(call, fn, name)
+            if how == 'arg' and a is not None:
+                out += cont(m2, f2, a, real)
+            elif how == 'default' and a is not None:
+                out += self.value(m, None, a, a, depth - 1)
+            else:
+                out.append(Prov('unknown', f'argument for `{name}` of {fn.name} not found', m2.rel, real.lineno))
+        return out
+
+    def _from_json(self, m: pf.Module, fn: Optional[pf.FuncDef], e: ast.AST, depth: int) -> bool:
+        """e is (a sub-object of) the decoded body of a request."""
+        for _ in range(6):
+            if isinstance(e, ast.Await):
+                e = e.value
+            elif _const_key(e) is not None:
+                e = _key_base(e)
+            elif isinstance(e, ast.Name) and fn is not None:
+                d = pf.single_def(fn, e.id)
+                if not isinstance(d, ast.expr):
+                    return False
+                e = d
+            else:
+                break
+        return isinstance(e, ast.Call) and pf.call_name(e) in JSON_SOURCES
+
+    # -- a field of a record --------------------------------------------------------------------------
+    def field(self, m: pf.Module, fn: pf.FuncDef, rname: str, field: str, at: ast.AST, depth: int) -> List[Prov]:
+        line = getattr(at, 'lineno', 0)
+        if depth <= 0:
+            return [Prov('unknown', 'definition chain too deep', m.rel, line)]
+        key = (id(fn), 'f', rname + '.' + field)
+        if key in self.active:
+            return []
+        self.active.add(key)
+        try:
+            return self._field(m, fn, rname, field, at, depth, line)
+        finally:
+            self.active.discard(key)
+
+    def _field(self, m: pf.Module, fn: pf.FuncDef, rname: str, field: str, at: ast.AST, depth: int, line: int) -> List[Prov]:
+        stores = [n for n in pf.walk_shallow(fn) if isinstance(n, ast.Assign) and any(isinstance(t, ast.Subscript) and isinstance(t.value, ast.Name) and t.value.id == rname and pf.const_str(t.slice) == field
+                                                                                      for t in n.targets)]
+        dom = [s_ for s_ in stores if _straight_dominates(m, fn, s_, at)]
+        if dom:
+            last = max(dom, key=lambda s_: (s_.lineno, s_.col_offset))
+            return self.value(m, fn, last.value, last, depth - 1)
+        out: List[Prov] = []
+        for s_ in stores:
+            out += self.value(m, fn, s_.value, s_, depth - 1)
+        opaque = [n for n in pf.walk_shallow(fn) if isinstance(n, ast.Call) and isinstance(n.func, ast.Attribute) and isinstance(n.func.value, ast.Name) and n.func.value.id == rname
+                  and n.func.attr in ('update', 'setdefault', 'pop', 'clear', '__setitem__')]
+        if opaque:
+            out.append(Prov('unknown', f'`{rname}` is modified by `{pf.nsrc(opaque[0])[:50]}`', m.rel, opaque[0].lineno))
+        defs = pf.assignments(fn).get(rname, [])
+        if not defs:
+            outer = _enclosing_fn(m, fn)
+            if outer is not None:
+                return out + self.field(m, outer, rname, field, fn, depth - 1)
+            return out + [Prov('unknown', f'`{rname}` is not a local of {fn.name}', m.rel, line)]
+        for d in defs:
+            if isinstance(d, ast.arg):
+                def cont(m2: pf.Module, f2: Optional[pf.FuncDef], a: ast.expr, real: ast.AST) -> List[Prov]:
+                    if isinstance(a, ast.Name) and f2 is not None:
+                        return self.field(m2, f2, a.id, field, real, depth - 1)
+                    return self.record(m2, f2, a, field, depth - 1)
+                out += self._param(m, fn, rname, depth, cont)
+            elif isinstance(d, (ast.For, ast.AsyncFor)) and isinstance(d.target, ast.Name) and d.target.id == rname:
+                out += self.rows(m, fn, d.iter, field, depth - 1)
+            elif isinstance(d, ast.expr):
+                out += self.record(m, fn, d, field, depth - 1)
+            else:
+                out.append(Prov('unknown', f'`{rname}` is bound by a {type(d).__name__} statement', m.rel, getattr(d, 'lineno', line)))
+        return out
+
+    def record(self, m: pf.Module, fn: Optional[pf.FuncDef], e: ast.AST, field: str, depth: int) -> List[Prov]:
+        """Field `field` of the single record that expression e evaluates to."""
+        line = getattr(e, 'lineno', 0)
+        if isinstance(e, ast.Await):
+            e = e.value
+        if isinstance(e, ast.Name) and fn is not None:
+            return self.field(m, fn, e.id, field, e, depth - 1)
+        if isinstance(e, ast.Dict):
+            for k, v in zip(e.keys, e.values):
+                if k is not None and pf.const_str(k) == field:
+                    return self.value(m, fn, v, v, depth - 1)
+            return [Prov('unknown', f'dict literal without the key {field!r}', m.rel, line)]
+        if isinstance(e, ast.Call) and isinstance(e.func, ast.Attribute) and e.func.attr in ROW_METHODS_ONE:
+            return self._query(m, e, field)
+        if self._from_json(m, fn, e, depth):
+            return [Prov('existing', f'`{pf.nsrc(e)[:40]}[{field!r}]` is taken from a request body (an attempt some worker reports on)', m.rel, line)]
+        return [Prov('unknown', f'record `{pf.nsrc(e)[:50]}`', m.rel, line)]
+
+    def rows(self, m: pf.Module, fn: pf.FuncDef, it: ast.AST, field: str, depth: int) -> List[Prov]:
+        """Field `field` of the records that iterating `it` yields."""
+        line = getattr(it, 'lineno', 0)
+        if depth <= 0:
+            return [Prov('unknown', 'definition chain too deep', m.rel, line)]
+        if isinstance(it, ast.Name):
+            d = pf.single_def(fn, it.id)
+            if isinstance(d, ast.expr):
+                return self.rows(m, fn, d, field, depth - 1)
+            return [Prov('unknown', f'rows `{it.id}`', m.rel, line)]
+        if isinstance(it, ast.Await):
+            it = it.value
+        if isinstance(it, ast.Call) and isinstance(it.func, ast.Attribute) and it.func.attr in ROW_METHODS_MANY:
+            return self._query(m, it, field)
+        if isinstance(it, ast.Call) and isinstance(it.func, ast.Name):
+            gen = self._local_function(m, fn, it.func.id)
+            if gen is not None:
+                ys = [n for n in pf.walk_shallow(gen) if isinstance(n, ast.Yield)]
+                if ys and not any(isinstance(n, ast.YieldFrom) for n in pf.walk_shallow(gen)):
+                    out: List[Prov] = []
+                    for y in ys:
+                        if isinstance(y.value, ast.Name):
+                            out += self.field(m, gen, y.value.id, field, y, depth - 1)
+                        else:
+                            out.append(Prov('unknown', f'`{pf.nsrc(y)[:50]}`', m.rel, y.lineno))
+                    return out
+        return [Prov('unknown', f'rows `{pf.nsrc(it)[:50]}`', m.rel, line)]
+
+    @staticmethod
+    def _local_function(m: pf.Module, fn: pf.FuncDef, name: str) -> Optional[pf.FuncDef]:
+        cur: Optional[pf.FuncDef] = fn
+        while cur is not None:
+            for n in pf.walk_shallow(cur):
+                if isinstance(n, (ast.FunctionDef, ast.AsyncFunctionDef)) and n.name == name and n is not cur:
+                    return n
+            cur = _enclosing_fn(m, cur)
+        return m.func(name) if m.has_func(name) else None
+
+    # -- a column of a query result --------------------------------------------------------------------
+    def _query(self, m: pf.Module, call: ast.Call, field: str) -> List[Prov]:
+        line = call.lineno
+        emb = [x for x in sf.embedded_in(m) if x.call is call]
+        if len(emb) != 1 or emb[0].sql_text is None:
+            return [Prov('unknown', 'query text not resolvable', m.rel, line)]
+        sts = emb[0].stmts()
+        if emb[0].parse_error or len(sts) != 1 or sts[0].kind != 'select' or sts[0].frm is None or getattr(sts[0], 'union', None):
+            return [Prov('unknown', 'query is not a single parsed SELECT', m.rel, line)]
+        q = sts[0]
+        refs = sf.from_tables(q.frm)
+        if any(t.kind != 'table' for t in refs):
+            return [Prov('unknown', 'query selects from a derived table', m.rel, line)]
+        alias = {(t.alias or t.name).lower(): t.name.lower() for t in refs}
+        cols_of = {a: [c.lower() for c in self.prog.tables.get(t, self.prog.tables.get(t.lower(), []))] for a, t in alias.items()}
+        for a, t in alias.items():
+            if not cols_of[a]:
+                cols_of[a] = [c.lower() for k, v in self.prog.tables.items() if k.lower() == t for c in v]
+
+        def owners(col: str) -> List[str]:
+            return [a for a in alias if col in cols_of[a]]
+        src: List[Tuple[str, str]] = []      # (table alias, column) supplying result key `field`, in select-list order
+        for c, al in q.cols:
+            if c.kind == 'star':
+                for a in ([c.table.lower()] if c.table else list(alias)):
+                    if a not in alias:
+                        return [Prov('unknown', f'`{c.table}.*` of an unknown table', m.rel, line)]
+                    if field in cols_of[a]:
+                        src.append((a, field))
+                continue
+            name = (al or (c.parts[-1] if c.kind == 'col' else '')).lower()
+            if name != field:
+                continue
+            if c.kind != 'col':
+                return [Prov('unknown', f'`{text(c)}` AS {field}', m.rel, line)]
+            if len(c.parts) > 1:
+                src.append((c.parts[-2].lower(), c.parts[-1].lower()))
+            else:
+                ow = owners(c.parts[-1].lower())
+                if len(ow) != 1:
+                    return [Prov('unknown', f'column `{text(c)}` is not attributable to one table', m.rel, line)]
+                src.append((ow[0], c.parts[-1].lower()))
+        if len(src) != 1 or src[0][0] not in alias:
+            return [Prov('unknown', f'result column {field!r} has {len(src)} sources in the select list', m.rel, line)]
+        a, col = src[0]
+        table = alias[a]
+        conds = sf.conjuncts(q.where) + [c for j in q.frm.joins for c in sf.conjuncts(j.on)]
+
+        def col_of(n: N, tab_alias: str, names: Sequence[str]) -> bool:
+            if n.kind != 'col' or n.parts[-1].lower() not in names:
+                return False
+            if len(n.parts) > 1:
+                return n.parts[-2].lower() == tab_alias
+            return owners(n.parts[-1].lower()) == [tab_alias]
+        what = f'`{table}.{col}` read by the query at {m.rel}:{line}'
+        if table == 'attempts' and col == self.id_col:
+            restricted = [c for c in conds if any(col_of(n, a, COLS) for n in c.walk())]
+            if restricted or q.having is not None:
+                return [Prov('unknown', f'{what}, restricted by `{text(restricted[0]) if restricted else "HAVING"}`', m.rel, line)]
+            return [Prov('existing', f'{what}: some attempt of the job that already exists (it may have run and been billed)', m.rel, line)]
+        if table == 'jobs' and col == self.id_col:
+            for c in conds:
+                if c.kind == 'bin' and c.op == '=':
+                    for x, y in ((c.left, c.right), (c.right, c.left)):
+                        if col_of(x, a, ['state']) and y.kind == 'lit' and y.value == 'Creating':
+                            return [Prov('creating', f'{what} WHERE {text(c)}: the attempt mark_job_creating made (start = rollup, not ended)', m.rel, line)]
+            return [Prov('existing', f'{what}: the current attempt of a job that is not known to be in state Creating (it may have run and been billed)', m.rel, line)]
+        return [Prov('unknown', what, m.rel, line)]
+
+
+def id_provenance(prog: sf.SqlProgram, m: pf.Module, fn: Optional[pf.FuncDef], e: ast.AST, at: ast.AST) -> List[Prov]:
+    return _ProvTracer(prog).value(m, fn, e, at)
+
+
+def fresh_state(provs: Optional[List[Prov]]) -> Optional[bool]:
+    """True: every source is a fresh attempt; False: some source is an existing attempt; None: not decided."""
+    if not provs:
+        return None
+    kinds = {p.kind for p in provs}
+    if 'existing' in kinds:
+        return False
+    if kinds <= FRESH_KINDS and kinds != {'none'}:
+        return True
+    return None
 
 
 # ----------------------------------------------------------------------------------------------------
@@ -794,13 +1215,20 @@ def refine_from_callers(ctx: Ctx, prog: sf.SqlProgram, ws: List[Writer]) -> None
 OLD_REASONS: List[Optional[str]] = [None, 'completed']
 
 
-def transitions(body: List[N], w: Writer, special_reasons: Sequence[str]) -> Iterator[Tuple[str, Dict[str, Any], Dict[str, Any], Dict[str, Any]]]:
-    """(call chain, OLD row, row written by the statement, row stored after the trigger) for every ordering class, starting from every
-    OLD row that satisfies Inv.  `special_reasons`: reason literals the trigger distinguishes (always part of the reason domain)."""
+def is_fresh_row(old: Dict[str, Any]) -> bool:
+    """The attempt has not ended and nothing has been billed for it yet."""
+    return old['end_time'] is None and old.get('reason') is None and (old['start_time'] is None or old['rollup_time'] is None or old['rollup_time'] <= old['start_time'])
+
+
+def transitions_ex(body: List[N], w: Writer, special_reasons: Sequence[str]) -> Iterator[Tuple[int, str, Dict[str, Any], Dict[str, Any], Dict[str, Any], bool]]:
+    """(variant index, call chain, OLD row, row written by the statement, row stored after the trigger, fresh) for every ordering class and
+    every variant, starting from every OLD row that satisfies Inv - WITHOUT applying the fresh-attempt restriction: `fresh` tells whether
+    the OLD row is one of an attempt that has not ended and has not been billed.  `special_reasons`: reason literals the trigger
+    distinguishes (always part of the reason domain)."""
     tsyms = list(w.tsyms)
     has_reason = any(c == 'reason' for c, _ in w.assigns)
     old_reasons = OLD_REASONS + [r for r in special_reasons if r not in OLD_REASONS]
-    for label, classes, fresh, rvals in w.variants:
+    for vi, (label, classes, _fresh, rvals) in enumerate(w.variants):
         if not has_reason:
             new_reasons: List[Optional[str]] = ['<keep>']
         elif w.rsym is None:
@@ -813,19 +1241,24 @@ def transitions(body: List[N], w: Writer, special_reasons: Sequence[str]) -> Ite
             old = dict(zip(TIME_COLS, ordv[:3]))
             if not inv(old):
                 continue
-            if fresh and not (old['end_time'] is None and (old['start_time'] is None or old['rollup_time'] is None or old['rollup_time'] <= old['start_time'])):
-                continue        # 'fresh': the attempt has not ended and nothing has been billed for it yet
             pv = dict(zip(tsyms, ordv[3:]))
             if any((classes.get(s) == 'nonnull' and pv[s] is None) or (classes.get(s) == 'null' and pv[s] is not None) for s in tsyms):
                 continue
             for oreason in old_reasons:
-                if fresh and oreason is not None:
-                    continue
                 old['reason'] = oreason
                 for nr in new_reasons:
                     new = w.written_row(old, pv, nr)
                     out = exec_trigger(body, old, new)
-                    yield label, dict(old), new, out
+                    yield vi, label, dict(old), new, out, is_fresh_row(old)
+
+
+def transitions(body: List[N], w: Writer, special_reasons: Sequence[str]) -> Iterator[Tuple[str, Dict[str, Any], Dict[str, Any], Dict[str, Any]]]:
+    """(call chain, OLD row, row written by the statement, row stored after the trigger) for every ordering class, starting from every
+    OLD row that satisfies Inv; chains whose attempt id provably names an unbilled attempt (variant flag True) start from such rows only."""
+    for vi, label, old, new, out, fresh in transitions_ex(body, w, special_reasons):
+        if w.variants[vi][2] is True and not fresh:
+            continue
+        yield label, old, new, out
 
 
 # ----------------------------------------------------------------------------------------------------
